@@ -74,7 +74,11 @@ func (tr *TestResults) Len() int {
 
 // Dump returns the slice for runtime diagnostics
 func (tr *TestResults) Dump() any {
-	return tr.results
+	tr.mutex.Lock()
+	results := make([]*TestResult, len(tr.results))
+	copy(results, tr.results)
+	tr.mutex.Unlock()
+	return results
 }
 
 // TestStatus is a summarised stamp for a particular result
